@@ -113,14 +113,20 @@ def buildHandler (tiled : Bool) : Handler := fun j => do
                 match pd with
                 | .native b => pure (natsToJson b)
                 | _ => pure Json.null : Except ErrKind Json)
+      let fkeys : List (Option Nat × Nat) := frames.map fun (f : Frame) => (f.seg, f.plane)
+      let ord' := (planOrder arr mfv omt order).2
+      -- DimensionIndexValues: slide coordinates when `coords` (per tile: row, column, x, y, z) is given, else a stack of
+      -- planes in a frame of reference, or a single image without one (`for` = false)
+      let dimsOf : List (List Nat) :=
+        match (j.getObjVal? "coords").toOption.bind (fun v => (jList jRatList v).toOption) with
+        | some coords => frameDimsSlide (fun p => coords.getD p []) ord' ((coords.headD []).length) fkeys
+        | none => if (getBool j "for").toOption.getD true then frameDims ord' fkeys else frameDimsNoFoR fkeys
       pure (Json.mkObj [
         ("nframes", (o.keys.length : Nat)),
         ("bits", (o.bits : Nat)),
         ("overlap", overlapStr ov),
         ("frames", Json.arr (frames.map fun f => Json.arr #[segToJson f.seg, (f.plane : Nat), natsToJson f.px]).toArray),
-        ("dims", Json.arr ((if (getBool j "for").toOption.getD true
-              then frameDims (planOrder arr mfv omt order).2 (frames.map fun f => (f.seg, f.plane))
-              else frameDimsNoFoR (frames.map fun f => (f.seg, f.plane))).map natsToJson).toArray),
+        ("dims", Json.arr (dimsOf.map natsToJson).toArray),
         ("pd", pdJson)])
     pure (exceptToJson id r)
 
